@@ -656,6 +656,7 @@ func (s *Session) portfolioSolve(extra string) (string, *Solver, func()) {
 		if err != nil {
 			continue
 		}
+		sv.noRestart = true
 		procs = append(procs, sv)
 		go func(sv *Solver) {
 			text := script
